@@ -102,12 +102,12 @@ Section Steps2.
     intros HG H. pose proof HG as (HI & HS).
     unfold close_borrow in H. destr_all H; use_iter cfg HG HI1 HS1; side_pos HS; spec_ubs; tia_cases; simp_pget; fin H;
       (split; [split|reflexivity]); [|side_solve| |side_solve].
-    - tia_inv HI1 E16 HI2.
+    - tia_inv HI1 E17 HI2.
       eapply (T_delborrow cfg _ _ _ _ _ HI2 bid (iter_b b e) l _ (pr_out_pool p, pr_out p)).
       all: try (intros k; apply pget_pset2).
       all: try apply zget_zset_same; try apply pget_pset_same; try reflexivity; try eassumption;
         try (apply bkey_of; exact E1); try stat_tac.
-    - rewrite E16 in Hs. injection Hs as <-.
+    - rewrite E17 in Hs. injection Hs as <-.
       eapply (T_delborrow cfg _ _ _ _ _ HI1 bid (iter_b b e) l _ (pr_out_pool p, pr_out p) s).
       all: try (intros k; apply pget_pset2).
       all: try apply zget_zset_same; try reflexivity; try eassumption;
@@ -134,7 +134,7 @@ Section Steps2.
         all: try apply zget_zset_same; try apply pget_pset_same; try (apply bkey_of; eassumption); try eassumption.
         all: try stat_tac; try reflexivity.
         all: cbn [iter_b upd_borrow b_out]; lia.
-      + rewrite E18 in Hs. injection Hs as <-.
+      + rewrite E19 in Hs. injection Hs as <-.
         match goal with |- context [s_sbor _ + ?d] =>
           eapply (T_out cfg _ _ _ _ _ HI1 bid (iter_b b e) _ (pr_out_pool p, pr_out p) s _ _ d) end.
         all: try (intros k; apply pget_pset).
